@@ -493,7 +493,7 @@ Proof.
     pose proof (round_dist v Hd) as Hd'.
     assert (Hf' : floorP (fst (@round RF nodes ks pre es wes v))) by (intros a Ha; apply round_anchor_floor; assumption).
     destruct (@round RF nodes ks pre es wes v) as [nv diff] eqn:Er. cbn [fst] in Hd', Hf'.
-    destruct (@ltb RF diff (@conv_thr RF)); [cbn [fst]; split; assumption|].
+    destruct (@ltb RF diff (@conv_thr RF) && (TRUST_MIN_ITERATIONS <=? iter + TRUST_MIN_ITER_OFFSET)%N); [cbn [fst]; split; assumption|].
     destruct ((TRUST_CUT1_N <? N.of_nat (length nodes))%N && (TRUST_CUT1_ITER <? iter)%N); [cbn [fst]; split; assumption|].
     destruct ((TRUST_CUT2_N <? N.of_nat (length nodes))%N && (TRUST_CUT2_ITER <? iter)%N); [cbn [fst]; split; assumption|].
     apply IH; [assumption|intros _; assumption].
@@ -524,7 +524,7 @@ Proof.
   - cbn [iterate fst]. apply Hf; reflexivity.
   - cbn [iterate]. pose proof (round_dist v Hd) as Hd'. pose proof (HP v Hd) as Hp.
     destruct (@round RF nodes ks pre es wes v) as [nv diff] eqn:Er. cbn [fst] in Hd', Hp.
-    destruct (@ltb RF diff (@conv_thr RF)); [exact Hp|].
+    destruct (@ltb RF diff (@conv_thr RF) && (TRUST_MIN_ITERATIONS <=? iter + TRUST_MIN_ITER_OFFSET)%N); [exact Hp|].
     destruct ((TRUST_CUT1_N <? N.of_nat (length nodes))%N && (TRUST_CUT1_ITER <? iter)%N); [exact Hp|].
     destruct ((TRUST_CUT2_N <? N.of_nat (length nodes))%N && (TRUST_CUT2_ITER <? iter)%N); [exact Hp|].
     apply IH; [assumption|intros _; assumption].
@@ -627,7 +627,7 @@ Proof.
 Qed.
 
 Definition exit_reason (fuel : nat) (iter : N) (r : vec RF * N) : Prop :=
-  (fuel <> O /\ massR (fst r) < 3 / 2 * @conv_thr RF)
+  (fuel <> O /\ (TRUST_MIN_ITERATIONS <= snd r)%N /\ massR (fst r) < 3 / 2 * @conv_thr RF)
   \/ ((TRUST_CUT1_N < N.of_nat (length nodes))%N /\ (TRUST_CUT1_ITER + 2 <= snd r)%N)
   \/ ((TRUST_CUT2_N < N.of_nat (length nodes))%N /\ (TRUST_CUT2_ITER + 2 <= snd r)%N)
   \/ snd r = (iter + N.of_nat fuel)%N.
@@ -648,9 +648,10 @@ Proof.
     destruct (@round RF nodes ks pre es wes v) as [nv diff] eqn:Er. cbn [fst snd] in Hd', Hm, Hdiff.
     assert (Hone : massR nv <= (1 - @alpha RF) ^ N.to_nat (iter + 1 - iter) * massR v).
     { replace (N.to_nat (iter + 1 - iter)) with 1%nat by lia. rewrite pow_1. lra. }
-    destruct (@ltb RF diff (@conv_thr RF)) eqn:Ec.
-    { cbn [fst snd]. split; [assumption|]. split; [lia|]. split; [intros _; lia|]. split; [assumption|].
-      left. split; [discriminate|]. cbn [fst]. apply ltb_R_true in Ec. rewrite alpha_R in Hm. lra. }
+    destruct (@ltb RF diff (@conv_thr RF) && (TRUST_MIN_ITERATIONS <=? iter + TRUST_MIN_ITER_OFFSET)%N) eqn:Ec.
+    { apply andb_true_iff in Ec. destruct Ec as [Ec Emin]. apply N.leb_le in Emin. unfold TRUST_MIN_ITER_OFFSET in Emin.
+      cbn [fst snd]. split; [assumption|]. split; [lia|]. split; [intros _; lia|]. split; [assumption|].
+      left. split; [discriminate|]. split; [exact Emin|]. cbn [fst]. apply ltb_R_true in Ec. rewrite alpha_R in Hm. lra. }
     destruct ((TRUST_CUT1_N <? N.of_nat (length nodes))%N && (TRUST_CUT1_ITER <? iter)%N) eqn:E1.
     { cbn [fst snd]. split; [assumption|]. split; [lia|]. split; [intros _; lia|]. split; [assumption|].
       right. left. cbn [snd]. apply andb_true_iff in E1. destruct E1 as [A B].
@@ -671,7 +672,7 @@ Proof.
         with ((1 - @alpha RF) ^ N.to_nat (snd r - (iter + 1)) * ((1 - @alpha RF) * massR v)) by ring.
       apply Rmult_le_compat_l; [assumption|exact Hm].
     + unfold exit_reason in *. destruct I5 as [[A B]|[A|[A|A]]].
-      * left. split; [discriminate|assumption].
+      * left. split; [discriminate|exact B].
       * right. left. assumption.
       * right. right. left. assumption.
       * right. right. right. lia.
@@ -1470,25 +1471,27 @@ Proof.
   assert ((3 / 5) ^ 4 = 81 / 625) by (simpl; lra). nra.
 Qed.
 
-Lemma sybil_seventh : (4 <= @rounds_run RF st)%N \/ 105 / 100000 <= share -> massGT <= share / 7.
+(* every exit of the loop is taken after at least 4 rounds, so the bound is unconditional *)
+Lemma rounds_ge_4 : (4 <= @rounds_run RF st)%N.
 Proof.
-  intro Hside. destruct power_spec as [Hdec [Hpos Hex]]. rewrite one_minus_alpha in Hdec.
-  assert (Hge4 : (4 <= @rounds_run RF st)%N -> massGT <= share / 7).
-  { intro H4. eapply Rle_trans; [apply closed_set_decay|]. apply decay_4. lia. }
-  unfold exit_reason in Hex. fold (tv st) in Hex. unfold rounds_run in *.
-  destruct Hex as [[_ Hc]|[[_ Hc]|[[_ Hc]|Hc]]].
-  - destruct Hside as [H4|Hs]; [apply Hge4; assumption|].
-    pose proof massGT_le. rewrite conv_thr_R in Hc. lra.
-  - apply Hge4. unfold TRUST_CUT1_ITER in Hc. lia.
-  - apply Hge4. unfold TRUST_CUT2_ITER in Hc. lia.
-  - apply Hge4. rewrite Hc. unfold TRUST_MAX_ITERATIONS. lia.
+  destruct power_spec as [_ [_ Hex]]. unfold exit_reason in Hex. unfold rounds_run.
+  destruct Hex as [[_ [Hc _]]|[[_ Hc]|[[_ Hc]|Hc]]].
+  - unfold TRUST_MIN_ITERATIONS in Hc. lia.
+  - unfold TRUST_CUT1_ITER in Hc. lia.
+  - unfold TRUST_CUT2_ITER in Hc. lia.
+  - rewrite Hc. unfold TRUST_MAX_ITERATIONS. lia.
+Qed.
+
+Lemma sybil_seventh : massGT <= share / 7.
+Proof.
+  eapply Rle_trans; [apply closed_set_decay|]. apply decay_4. pose proof rounds_ge_4. lia.
 Qed.
 
 Lemma small_net : (N.of_nat (length nodes) <= 100)%N -> massGT < 1 / 1000.
 Proof.
   intro Hn. destruct power_spec as [Hdec [Hpos Hex]]. rewrite one_minus_alpha in Hdec.
   unfold exit_reason in Hex. fold (tv st) in Hex. pose proof massGT_le as Hle. fold (tv st) in Hdec.
-  destruct Hex as [[_ Hc]|[[Hc _]|[[Hc _]|Hc]]].
+  destruct Hex as [[_ [_ Hc]]|[[Hc _]|[[Hc _]|Hc]]].
   - rewrite conv_thr_R in Hc. lra.
   - unfold TRUST_CUT1_N in Hc. lia.
   - unfold TRUST_CUT2_N in Hc. lia.
@@ -1674,38 +1677,31 @@ Proof.
     exact (closed_set_decay ln1p Hln st (reach_wf ln1p pre ops) Hne c Hc d Hd Sy H1 H2 H3 Ha H4).
 Qed.
 
+Lemma hist_rounds_ge_4 : forall pre ops,
+  let st := reach ln1p pre ops in
+  @node_set RF st <> [] -> st_pre st <> [] -> (4 <= @rounds_run RF st)%N.
+Proof.
+  intros pre ops st Hne Ha.
+  (* the empty set is closed; the exit analysis does not depend on the set *)
+  apply (rounds_ge_4 st (reach_wf ln1p pre ops) Hne []); try assumption.
+  - constructor.
+  - intros x [].
+  - intros i [].
+  - intros e _ _ [].
+Qed.
+
 Lemma hist_sybil_seventh : forall pre ops d Sy,
   let st := reach ln1p pre ops in
   0 <= d -> st_pre st <> [] -> equal_stats st -> unvouched st Sy ->
-  (4 <= @rounds_run RF st)%N \/ 105 / 100000 <= pop_share st Sy ->
   @mass RF (GT st d) Sy <= pop_share st Sy / 7.
 Proof.
-  intros pre ops d Sy st Hd Ha He [H1 [H2 [H3 H4]]] Hside.
+  intros pre ops d Sy st Hd Ha He [H1 [H2 [H3 H4]]].
   destruct Sy as [|s Sy'] eqn:ES.
   - rewrite mass_nil. unfold pop_share. simpl. unfold Rdiv. rewrite !Rmult_0_l. lra.
   - rewrite <- ES in *. assert (Hne : @node_set RF st <> []).
     { apply (in_nonempty s). apply H2. rewrite ES. now left. }
     destruct (equal_stats_c st He Hne) as [c Hc]. rewrite mass_GT.
-    exact (sybil_seventh ln1p Hln st (reach_wf ln1p pre ops) Hne c Hc d Hd Sy H1 H2 H3 Ha H4 Hside).
-Qed.
-
-(* the side condition holds in every network of at most 950 nodes *)
-Lemma hist_sybil_seventh_950 : forall pre ops d Sy,
-  let st := reach ln1p pre ops in
-  0 <= d -> st_pre st <> [] -> equal_stats st -> unvouched st Sy ->
-  (length (@node_set RF st) <= 950)%nat ->
-  @mass RF (GT st d) Sy <= pop_share st Sy / 7.
-Proof.
-  intros pre ops d Sy st Hd Ha He Hu Hn. destruct Sy as [|s Sy'] eqn:ES.
-  - rewrite mass_nil. unfold pop_share. simpl. unfold Rdiv. rewrite !Rmult_0_l. lra.
-  - rewrite <- ES in *. apply hist_sybil_seventh; try assumption. right.
-    destruct Hu as [_ [H2 _]].
-    assert (Hne : @node_set RF st <> []) by (apply (in_nonempty s); apply H2; rewrite ES; now left).
-    unfold pop_share. pose proof (length_pos_INR _ Hne) as Hp.
-    assert (1 <= INR (length Sy)). { rewrite ES. change (length (s :: Sy')) with (S (length Sy')). rewrite S_INR. pose proof (pos_INR (length Sy')). lra. }
-    assert (INR (length (@node_set RF st)) <= 950). { replace 950 with (INR 950) by (simpl; lra). apply le_INR. assumption. }
-    apply (Rmult_le_reg_r (INR (length (@node_set RF st)))); [assumption|].
-    unfold Rdiv at 2. rewrite Rmult_assoc, Rinv_l by lra. lra.
+    exact (sybil_seventh ln1p Hln st (reach_wf ln1p pre ops) Hne c Hc d Hd Sy H1 H2 H3 Ha H4).
 Qed.
 
 Lemma hist_small_net : forall pre ops d Sy,
